@@ -60,6 +60,7 @@ type pOpts struct {
 	NoSignals    bool         `json:"nosignals,omitempty"`
 	NoRenderer   bool         `json:"norenderer,omitempty"`
 	Compressor   bool         `json:"compressor,omitempty"` // WithANSICompressor
+	NoCatch      bool         `json:"nocatch,omitempty"`    // WithoutCatchPanics
 	Filter       *pFilterSpec `json:"filter,omitempty"`
 }
 
